@@ -130,6 +130,70 @@ impl Serializer for Recorder {
     }
 }
 
+/// A sink that refuses the string it is handed (to check that a failed serialisation leaves
+/// nothing behind that a later one could pick up).
+pub struct Refuser;
+
+impl Serializer for Refuser {
+    type Error = RecErr;
+    type Ok = String;
+    type SerializeMap = Impossible<String, RecErr>;
+    type SerializeSeq = Impossible<String, RecErr>;
+    type SerializeStruct = Impossible<String, RecErr>;
+    type SerializeStructVariant = Impossible<String, RecErr>;
+    type SerializeTuple = Impossible<String, RecErr>;
+    type SerializeTupleStruct = Impossible<String, RecErr>;
+    type SerializeTupleVariant = Impossible<String, RecErr>;
+
+    refuse! {
+        serialize_bool(bool); serialize_i8(i8); serialize_i16(i16); serialize_i32(i32); serialize_i64(i64);
+        serialize_u8(u8); serialize_u16(u16); serialize_u32(u32); serialize_u64(u64);
+        serialize_f32(f32); serialize_f64(f64); serialize_char(char); serialize_bytes(&[u8]);
+        serialize_none(); serialize_unit(); serialize_unit_struct(&'static str);
+        serialize_unit_variant(&'static str, u32, &'static str); serialize_str(&str);
+    }
+
+    fn serialize_some<T: ?Sized + Serialize>(self, _: &T) -> Result<String, RecErr> {
+        Err(RecErr("refused".into()))
+    }
+
+    fn serialize_newtype_struct<T: ?Sized + Serialize>(self, _: &'static str, _: &T) -> Result<String, RecErr> {
+        Err(RecErr("refused".into()))
+    }
+
+    fn serialize_newtype_variant<T: ?Sized + Serialize>(self, _: &'static str, _: u32, _: &'static str, _: &T) -> Result<String, RecErr> {
+        Err(RecErr("refused".into()))
+    }
+
+    fn serialize_seq(self, _: Option<usize>) -> Result<Self::SerializeSeq, RecErr> {
+        Err(RecErr("refused".into()))
+    }
+
+    fn serialize_tuple(self, _: usize) -> Result<Self::SerializeTuple, RecErr> {
+        Err(RecErr("refused".into()))
+    }
+
+    fn serialize_tuple_struct(self, _: &'static str, _: usize) -> Result<Self::SerializeTupleStruct, RecErr> {
+        Err(RecErr("refused".into()))
+    }
+
+    fn serialize_tuple_variant(self, _: &'static str, _: u32, _: &'static str, _: usize) -> Result<Self::SerializeTupleVariant, RecErr> {
+        Err(RecErr("refused".into()))
+    }
+
+    fn serialize_map(self, _: Option<usize>) -> Result<Self::SerializeMap, RecErr> {
+        Err(RecErr("refused".into()))
+    }
+
+    fn serialize_struct(self, _: &'static str, _: usize) -> Result<Self::SerializeStruct, RecErr> {
+        Err(RecErr("refused".into()))
+    }
+
+    fn serialize_struct_variant(self, _: &'static str, _: u32, _: &'static str, _: usize) -> Result<Self::SerializeStructVariant, RecErr> {
+        Err(RecErr("refused".into()))
+    }
+}
+
 fn json_escaped(s: &str) -> String {
     // every character as \uXXXX (surrogate pairs for astral characters)
     let mut o = String::from("\"");
@@ -179,6 +243,11 @@ where
         Out::Ok(c) => c,
         o => return (seen, Some(Fail::new("format-panicked", o.kind()))),
     };
+    // history: a serialisation into a sink that fails, then the ones that are judged — a
+    // failed attempt must not leak into the next result
+    if let Out::Panic(m) = guard("Serialize::serialize(Refuser)", || p.serialize(Refuser).is_err()) {
+        return (seen, Some(Fail::new("serialise-panicked", m)));
+    }
     match guard("serde_json::to_string", || serde_json::to_string(&p)) {
         Out::Ok(Ok(js)) => {
             let want = serde_json::to_string(&c).expect("string to json");
